@@ -24,22 +24,26 @@ Record snode := mkS {
   s_ns : str;                    (* namespace URI ([] = none) *)
   s_l1 : bool;                   (* created by a DOM Level 1 method (createElement/createAttribute): no namespace support *)
   s_oelem : option id;           (* an Attr: ownerElement *)
-  s_dead : bool                  (* discarded by the operation that removed it (removeAttribute, a replaced attribute value) *)
+  s_dead : bool;                 (* discarded: removeAttribute, a replaced attribute value, release() *)
+  s_udata : list (str * N);      (* user data: key -> data (DOM L3 setUserData / getUserData) *)
+  s_isid : bool                  (* an Attr: isId *)
 }.
 Definition sheap := list snode.
-Definition sdummy : snode := mkS TText [] [] [] 0 None [] false [] true None false.
+Definition sdummy : snode := mkS TText [] [] [] 0 None [] false [] true None false [] false.
 Definition sn (s : sheap) (i : id) : snode := nth i s sdummy.
 Fixpoint supd (s : sheap) (i : id) (f : snode -> snode) : sheap :=
   match s, i with [], _ => [] | x :: r, O => f x :: r | x :: r, S j => x :: supd r j f end.
 
-Definition with_val v (n : snode) := mkS (s_ty n) (s_name n) v (s_attrs n) (s_doc n) (s_parent n) (s_kids n) (s_ro n) (s_ns n) (s_l1 n) (s_oelem n) (s_dead n).
-Definition with_attrs v (n : snode) := mkS (s_ty n) (s_name n) (s_val n) v (s_doc n) (s_parent n) (s_kids n) (s_ro n) (s_ns n) (s_l1 n) (s_oelem n) (s_dead n).
-Definition with_parent v (n : snode) := mkS (s_ty n) (s_name n) (s_val n) (s_attrs n) (s_doc n) v (s_kids n) (s_ro n) (s_ns n) (s_l1 n) (s_oelem n) (s_dead n).
-Definition with_name v (n : snode) := mkS (s_ty n) v (s_val n) (s_attrs n) (s_doc n) (s_parent n) (s_kids n) (s_ro n) (s_ns n) (s_l1 n) (s_oelem n) (s_dead n).
-Definition with_ns v (n : snode) := mkS (s_ty n) (s_name n) (s_val n) (s_attrs n) (s_doc n) (s_parent n) (s_kids n) (s_ro n) v (s_l1 n) (s_oelem n) (s_dead n).
-Definition with_oelem v (n : snode) := mkS (s_ty n) (s_name n) (s_val n) (s_attrs n) (s_doc n) (s_parent n) (s_kids n) (s_ro n) (s_ns n) (s_l1 n) v (s_dead n).
-Definition with_dead v (n : snode) := mkS (s_ty n) (s_name n) (s_val n) (s_attrs n) (s_doc n) (s_parent n) (s_kids n) (s_ro n) (s_ns n) (s_l1 n) (s_oelem n) v.
-Definition with_kids v (n : snode) := mkS (s_ty n) (s_name n) (s_val n) (s_attrs n) (s_doc n) (s_parent n) v (s_ro n) (s_ns n) (s_l1 n) (s_oelem n) (s_dead n).
+Definition with_val v (n : snode) := mkS (s_ty n) (s_name n) v (s_attrs n) (s_doc n) (s_parent n) (s_kids n) (s_ro n) (s_ns n) (s_l1 n) (s_oelem n) (s_dead n) (s_udata n) (s_isid n).
+Definition with_attrs v (n : snode) := mkS (s_ty n) (s_name n) (s_val n) v (s_doc n) (s_parent n) (s_kids n) (s_ro n) (s_ns n) (s_l1 n) (s_oelem n) (s_dead n) (s_udata n) (s_isid n).
+Definition with_parent v (n : snode) := mkS (s_ty n) (s_name n) (s_val n) (s_attrs n) (s_doc n) v (s_kids n) (s_ro n) (s_ns n) (s_l1 n) (s_oelem n) (s_dead n) (s_udata n) (s_isid n).
+Definition with_name v (n : snode) := mkS (s_ty n) v (s_val n) (s_attrs n) (s_doc n) (s_parent n) (s_kids n) (s_ro n) (s_ns n) (s_l1 n) (s_oelem n) (s_dead n) (s_udata n) (s_isid n).
+Definition with_ns v (n : snode) := mkS (s_ty n) (s_name n) (s_val n) (s_attrs n) (s_doc n) (s_parent n) (s_kids n) (s_ro n) v (s_l1 n) (s_oelem n) (s_dead n) (s_udata n) (s_isid n).
+Definition with_oelem v (n : snode) := mkS (s_ty n) (s_name n) (s_val n) (s_attrs n) (s_doc n) (s_parent n) (s_kids n) (s_ro n) (s_ns n) (s_l1 n) v (s_dead n) (s_udata n) (s_isid n).
+Definition with_dead v (n : snode) := mkS (s_ty n) (s_name n) (s_val n) (s_attrs n) (s_doc n) (s_parent n) (s_kids n) (s_ro n) (s_ns n) (s_l1 n) (s_oelem n) v (s_udata n) (s_isid n).
+Definition with_udata v (n : snode) := mkS (s_ty n) (s_name n) (s_val n) (s_attrs n) (s_doc n) (s_parent n) (s_kids n) (s_ro n) (s_ns n) (s_l1 n) (s_oelem n) (s_dead n) v (s_isid n).
+Definition with_isid v (n : snode) := mkS (s_ty n) (s_name n) (s_val n) (s_attrs n) (s_doc n) (s_parent n) (s_kids n) (s_ro n) (s_ns n) (s_l1 n) (s_oelem n) (s_dead n) (s_udata n) v.
+Definition with_kids v (n : snode) := mkS (s_ty n) (s_name n) (s_val n) (s_attrs n) (s_doc n) (s_parent n) v (s_ro n) (s_ns n) (s_l1 n) (s_oelem n) (s_dead n) (s_udata n) (s_isid n).
 
 (** rose-tree view of the subtree rooted at [i] *)
 Inductive tree := T (i : id) (ty : ntype) (name value : str) (attrs : list id) (children : list tree).
@@ -105,6 +109,8 @@ Definition s_insert_check (s : sheap) (p c : id) (ref ignore : option id) : opti
                     end in
   if is_leaf (s_ty (sn s p)) then Some HIERARCHY
   else if ntype_eqb (s_ty (sn s p)) TDoc && is_elem s c && root_taken then Some HIERARCHY   (* (c) *)
+  else if ntype_eqb (s_ty (sn s p)) TDoc && ntype_eqb (s_ty (sn s c)) TFrag
+          && (1 <? length (filter (is_elem s) (s_kids (sn s c))) + (if root_taken then 1 else 0)) then Some HIERARCHY
   else if s_ro (sn s p) then Some NO_MOD
   else if negb (oeqb (s_owner_doc s c) (Some (s_doc (sn s p)))) then Some WRONG_DOC
   else if anc_or_self (length s) s c p then Some HIERARCHY
@@ -160,10 +166,10 @@ Definition s_create (s : sheap) (doc : id) (t : ntype) (nm v : str) : sheap * re
   if negb (ntype_eqb (s_ty (sn s doc)) TDoc) then (s, RSkip)
   else match t with
        | TDoc => (s, RSkip)
-       | TElem | TERef | TAttr => if valid_name nm then s_new s (mkS t nm [] [] doc None [] (ntype_eqb t TERef) [] true None false) else (s, RErr INVALID_CHAR)
-       | TPI => if valid_name nm then s_new s (mkS t nm v [] doc None [] false [] true None false) else (s, RErr INVALID_CHAR)
-       | TFrag => s_new s (mkS t [] [] [] doc None [] false [] true None false)
-       | _ => s_new s (mkS t [] v [] doc None [] false [] true None false)
+       | TElem | TERef | TAttr => if valid_name nm then s_new s (mkS t nm [] [] doc None [] (ntype_eqb t TERef) [] true None false [] false) else (s, RErr INVALID_CHAR)
+       | TPI => if valid_name nm then s_new s (mkS t nm v [] doc None [] false [] true None false [] false) else (s, RErr INVALID_CHAR)
+       | TFrag => s_new s (mkS t [] [] [] doc None [] false [] true None false [] false)
+       | _ => s_new s (mkS t [] v [] doc None [] false [] true None false [] false)
        end.
 
 (** splitText: the tail becomes a new node of the same type, inserted as the next sibling (under the rules of
@@ -174,7 +180,7 @@ Definition s_split (s : sheap) (n : id) (offN : N) : sheap * result :=
        if negb (in_range offN d) then (s, RErr INDEX_SIZE)
        else let off := N.to_nat offN in
             let nt := length s in
-            let s1 := s ++ [mkS (s_ty (sn s n)) [] (skipn off d) [] (s_doc (sn s n)) None [] false [] true None false] in
+            let s1 := s ++ [mkS (s_ty (sn s n)) [] (skipn off d) [] (s_doc (sn s n)) None [] false [] true None false [] false] in
             let (s2, r2) := match s_parent (sn s n) with
                             | Some p => s_insert s1 p nt (next_of n (s_kids (sn s p))) None
                             | None => (s1, ROk)
@@ -216,7 +222,7 @@ Fixpoint s_clone (fuel : nat) (s : sheap) (n : id) (deep : bool) : sheap * id :=
   let c := length s in
   let s1 := s ++ [mkS (s_ty x) (match s_ty x with TFrag => [] | _ => s_name x end)
                       (if is_leaf (s_ty x) then s_val x else []) []
-                      (s_doc x) None [] (ntype_eqb (s_ty x) TERef) (s_ns x) (s_l1 x) None false] in
+                      (s_doc x) None [] (ntype_eqb (s_ty x) TERef) (s_ns x) (s_l1 x) None false [] (s_isid x)] in
   match fuel with
   | O => (s1, c)
   | S f =>
@@ -252,14 +258,14 @@ Definition s_rename_core (s : sheap) (doc n : id) (ns nm : str) : sheap * result
          | Some uri =>
            if s_l1 x then                                                                                    (* (f) *)
              let ne := length s in
-             let s1 := s ++ [mkS (s_ty x) nm [] (s_attrs x) doc (s_parent x) (s_kids x) false uri false None false] in
+             let s1 := s ++ [mkS (s_ty x) nm [] (s_attrs x) doc (s_parent x) (s_kids x) false uri false None false (s_udata x) false] in
              let s2 := fold_left (fun s0 k => supd s0 k (with_parent (Some ne))) (s_kids x) s1 in
              let s3 := match s_parent x with
                        | Some p => supd s2 p (fun y => with_kids (replace_id n ne (s_kids y)) y)
                        | None => s2
                        end in
              let s4 := fold_left (fun s0 a => supd s0 a (with_oelem (Some ne))) (s_attrs x) s3 in
-             (supd s4 n (fun y => with_attrs [] (with_kids [] (with_parent None y))), RNode ne)
+             (supd s4 n (fun y => with_udata [] (with_attrs [] (with_kids [] (with_parent None y)))), RNode ne)
            else (supd s n (fun y => with_ns uri (with_name nm y)), RNode n)
          end.
 
@@ -279,13 +285,13 @@ Definition a_value (s : sheap) (a : id) : str :=
   flat_map (fun k => match s_ty (sn s k) with TText => s_val (sn s k) | _ => [] end) (s_kids (sn s a)).
 (** discard a subtree *)
 Fixpoint s_kill (fuel : nat) (s : sheap) (n : id) : sheap :=
-  match fuel with O => s | S f => fold_left (s_kill f) (s_kids (sn s n)) (supd s n (with_dead true)) end.
+  match fuel with O => s | S f => fold_left (s_kill f) (s_kids (sn s n) ++ s_attrs (sn s n)) (supd s n (fun x => with_isid false (with_udata [] (with_dead true x)))) end.
 (** give the attribute the value v: its children are discarded, one new Text node (numbered next) holds v *)
 Definition a_set_value (s : sheap) (a : id) (v : str) : sheap * result :=
   if s_ro (sn s a) then (s, RErr NO_MOD)
   else let s1 := fold_left (fun s0 k => s_kill (length s) (detach s0 k) k) (s_kids (sn s a)) s in
        let t := length s1 in
-       let s2 := s1 ++ [mkS TText [] v [] (s_doc (sn s a)) None [] false [] true None false] in
+       let s2 := s1 ++ [mkS TText [] v [] (s_doc (sn s a)) None [] false [] true None false [] false] in
        (attach s2 a t None, ROk).
 
 Definition s_set_attr_node (s : sheap) (e a : id) : sheap * result :=
@@ -298,7 +304,7 @@ Definition s_set_attr_node (s : sheap) (e a : id) : sheap * result :=
          let old := a_find s (s_attrs (sn s e)) (s_name (sn s a)) in
          let s1 := supd (supd s e (fun x => with_attrs (a_put s (s_attrs x) a) x)) a (with_oelem (Some e)) in
          match old with
-         | Some p => (supd s1 p (with_oelem None), RNode p)
+         | Some p => (supd s1 p (fun x => with_isid false (with_oelem None x)), RNode p)     (* the replaced attribute is no ID of the document any more *)
          | None => (s1, ROk)
          end
        end.
@@ -306,7 +312,7 @@ Definition s_set_attr_node (s : sheap) (e a : id) : sheap * result :=
 Definition s_remove_attr_node (s : sheap) (e a : id) : sheap * result :=
   if s_ro (sn s e) then (s, RErr NO_MOD)
   else if existsb (Nat.eqb a) (s_attrs (sn s e))                     (* THAT node, not one of the same name *)
-       then (supd (supd s e (fun x => with_attrs (remove_id a (s_attrs x)) x)) a (with_oelem None), RNode a)
+       then (supd (supd s e (fun x => with_attrs (remove_id a (s_attrs x)) x)) a (fun x => with_isid false (with_oelem None x)), RNode a)
        else (s, RErr NOT_FOUND).
 
 Definition s_set_attribute (s : sheap) (e : id) (nm v : str) : sheap * result :=
@@ -316,7 +322,7 @@ Definition s_set_attribute (s : sheap) (e : id) (nm v : str) : sheap * result :=
        | None =>
          if valid_name nm then
            let a := length s in
-           let s1 := s ++ [mkS TAttr nm [] [] (s_doc (sn s e)) None [] false [] true (Some e) false] in
+           let s1 := s ++ [mkS TAttr nm [] [] (s_doc (sn s e)) None [] false [] true (Some e) false [] false] in
            a_set_value (supd s1 e (fun x => with_attrs (a_put s1 (s_attrs x) a) x)) a v
          else (s, RErr INVALID_CHAR)
        end.
@@ -335,13 +341,57 @@ Definition s_rename (s : sheap) (doc n : id) (ns nm : str) : sheap * result :=
   | Some el =>
     if s_ro (sn s el) then (if negb (oeqb (s_owner_doc s n) (Some doc)) then (s, RErr WRONG_DOC) else (s, RErr NO_MOD))
     else
-    let s0 := supd (supd s el (fun x => with_attrs (remove_id n (s_attrs x)) x)) n (with_oelem None) in
+    let s0 := supd (supd s el (fun x => with_attrs (remove_id n (s_attrs x)) x)) n (fun x => with_isid false (with_oelem None x)) in
     let (s1, r1) := s_rename_core s0 doc n ns nm in
     match r1 with
     | RNode m => (fst (s_set_attr_node s1 el m), RNode m)
     | _ => (s, r1)
     end
   | None => s_rename_core s doc n ns nm
+  end.
+
+(** ------------------------------------------------------------ user data, release, ID attributes *)
+Fixpoint u_get (l : list (str * N)) (k : str) : N :=
+  match l with [] => 0%N | (j, v) :: r => if str_eqb j k then v else u_get r k end.
+Definition u_del (l : list (str * N)) (k : str) := filter (fun p => negb (str_eqb (fst p) k)) l.
+Definition s_set_user_data (s : sheap) (n : id) (key : str) (data : N) : sheap * result :=
+  let l := s_udata (sn s n) in
+  let l1 := u_del l key in
+  (supd s n (with_udata (if N.eqb data 0 then l1 else (key, data) :: l1)), RData (u_get l key)).
+
+Fixpoint s_subtree (fuel : nat) (s : sheap) (n : id) : list id :=
+  match fuel with O => [n] | S f => n :: flat_map (s_subtree f s) (s_kids (sn s n) ++ s_attrs (sn s n)) end.
+(** release(): only a node without parent / owner element; it and everything under it is discarded ([force]: see Model13) *)
+Definition s_release (s : sheap) (n : id) (force : bool) : sheap * result :=
+  match s_ty (sn s n) with
+  | TDoc => (s, RSkip)
+  | _ => if (match s_parent (sn s n) with Some _ => true | None => false end) || (match s_oelem (sn s n) with Some _ => true | None => false end)
+         then (s, RErr INVALID_ACCESS)
+         else if negb force && existsb (fun x => s_isid (sn s x)) (s_subtree (length s) s n) then (s, RSkip)
+         else (s_kill (length s) s n, ROk)
+  end.
+Definition s_set_id_attr (s : sheap) (e : id) (nm : str) (b : bool) : sheap * result :=
+  if s_ro (sn s e) then (s, RErr NO_MOD)
+  else match a_find s (s_attrs (sn s e)) nm with
+       | None => (s, RErr NOT_FOUND)
+       | Some a => (supd s a (with_isid b), ROk)
+       end.
+Definition s_set_id_attr_node (s : sheap) (e a : id) (b : bool) : sheap * result :=
+  if s_ro (sn s e) then (s, RErr NO_MOD)
+  else if existsb (Nat.eqb a) (s_attrs (sn s e)) then (supd s a (with_isid b), ROk)         (* THAT node *)
+  else (s, RErr NOT_FOUND).
+(** getElementById(v): an element of the document that carries an ID attribute with value v.  When several do, DOM
+    leaves the choice open: [s_carries] is the admissible set, [s_get_by_id] picks the oldest *)
+Definition s_carries (s : sheap) (d : id) (v : str) (e : id) : bool :=
+  is_elem s e && negb (s_dead (sn s e)) && Nat.eqb (s_doc (sn s e)) d &&
+  existsb (fun a => s_isid (sn s a) && str_eqb (a_value s a) v) (s_attrs (sn s e)).
+Definition s_get_by_id (s : sheap) (d : id) (v : str) : result :=
+  match filter (s_carries s d v) (seq 0 (length s)) with e :: _ => RNode e | [] => ROk end.
+Definition s_by_id_ok (s : sheap) (d : id) (v : str) (r : result) : bool :=
+  match r with
+  | RNode e => s_carries s d v e
+  | ROk => match filter (s_carries s d v) (seq 0 (length s)) with [] => true | _ => false end
+  | _ => false
   end.
 
 Definition svalid (s : sheap) (i : id) : bool := (i <? length s) && negb (s_dead (sn s i)).
@@ -395,6 +445,13 @@ Definition sstep (s : sheap) (o : op) : sheap * result :=
   | OGetAttrNode e nm =>
     if svalid s e && is_elem s e then (s, match a_find s (s_attrs (sn s e)) nm with Some a => RNode a | None => ROk end)
     else (s, RSkip)
+  | OSetUserData n key data _ => if svalid s n then s_set_user_data s n key data else (s, RSkip)
+  | OGetUserData n key => if svalid s n then (s, RData (u_get (s_udata (sn s n)) key)) else (s, RSkip)
+  | ORelease n force => if svalid s n then s_release s n force else (s, RSkip)
+  | OSetIdAttr e nm b => if svalid s e && is_elem s e then s_set_id_attr s e nm b else (s, RSkip)
+  | OSetIdAttrNode e a b =>
+    if svalid s e && svalid s a && is_elem s e && ntype_eqb (s_ty (sn s a)) TAttr then s_set_id_attr_node s e a b else (s, RSkip)
+  | OGetById d v => if svalid s d && ntype_eqb (s_ty (sn s d)) TDoc then (s, s_get_by_id s d v) else (s, RSkip)
   | ORename d n ns nm =>
     if svalid s d && svalid s n && ntype_eqb (s_ty (sn s d)) TDoc then s_rename s d n ns nm else (s, RSkip)
   end.
@@ -405,4 +462,4 @@ Fixpoint srun (s : sheap) (l : list op) : sheap * list result :=
   | o :: r => let (s1, x) := sstep s o in let (s2, xs) := srun s1 r in (s2, x :: xs)
   end.
 
-Definition sinit (n : nat) : sheap := map (fun i => mkS TDoc [] [] [] i None [] false [] true None false) (seq 0 n).
+Definition sinit (n : nat) : sheap := map (fun i => mkS TDoc [] [] [] i None [] false [] true None false [] false) (seq 0 n).
